@@ -1,0 +1,49 @@
+//go:build verif
+
+package refopts
+
+// Contracts for package refopts (comment-only; build tag verif). Checked by
+// /verif/vcgen. apply/prefixMatch/fullMatchK are defined in
+// git/zz_contracts_verif.go and /verif/deps/std.spec.
+
+// rgApply(rg, r): what a refGroupFilter for group rg lets through. It is
+// evaluated on the group tree at the time the filter is used, so it stays
+// uninterpreted here (see C07 for collectSymbols).
+//@ spec rgApply(rg Ref, r string) bool
+//@ axiom apply_refgroup [definition]: forall f Iface, r string :: dyntype(f, "refopts.refGroupFilter") ==> apply(f, r) == rgApply(unbox(f, "refopts.refGroupFilter").refGroup, r)
+
+//@ spec isSlashed(s string) bool = len(s) >= 2 && s[0] == '/' && s[len(s)-1] == '/'
+//@ spec isAt(s string) bool = len(s) >= 1 && s[0] == '@'
+
+// The meaning of an option argument (C06: "/REGEXP/ must match the entire
+// reference name, @REFGROUP matches the members of that group, otherwise
+// PREFIX at a component boundary").
+//@ spec flexApply(v *filterValue, p string, r string) bool = ite(isSlashed(p), fullMatchK(keyof(p[1:len(p)-1]), keyof(r)), ite(isAt(p), rgApply(v.rgb.groups[p[1:]], r), len(p) == 0 || prefixMatch(p, r)))
+//@ spec patApply(v *filterValue, p string, r string) bool = ite(v.regexp, fullMatchK(keyof(p), keyof(r)), flexApply(v, p, r))
+//@ spec isInc(c Iface) bool = dyntype(c, "git.include")
+
+//@ func (*filterValue).interpretFlexibly
+//@   pure
+//@   ensures result1 == nil ==> forall r string :: apply(result0, r) == flexApply(v, s, r)
+//@   ensures !isSlashed(s) && !isAt(s) ==> result1 == nil
+//@   ensures !isSlashed(s) && isAt(s) ==> (result1 == nil) == (len(s) > 1 && v.rgb.groups[s[1:]] != nil)
+
+// Set: the new top-level filter is Combine(old, F) with the option's polarity
+// (inverted when a fixed-pattern option receives a false boolean).
+//@ func (*filterValue).Set
+//@   requires dyntype(v.combiner, "git.include") || dyntype(v.combiner, "git.exclude")
+//@   modifies v.rgb.topLevelGroup.filter
+//@   ensures result == nil && len(v.pattern) == 0 && isInc(v.combiner) ==> forall r string :: apply(v.rgb.topLevelGroup.filter, r) == ((old(v.rgb.topLevelGroup.filter) != nil && apply(old(v.rgb.topLevelGroup.filter), r)) || patApply(v, s, r))
+//@   ensures result == nil && len(v.pattern) == 0 && !isInc(v.combiner) ==> forall r string :: apply(v.rgb.topLevelGroup.filter, r) == ((old(v.rgb.topLevelGroup.filter) == nil || apply(old(v.rgb.topLevelGroup.filter), r)) && !patApply(v, s, r))
+//@   ensures result == nil && len(v.pattern) > 0 && isInc(v.combiner) == parseBoolK(keyof(s)) ==> forall r string :: apply(v.rgb.topLevelGroup.filter, r) == ((old(v.rgb.topLevelGroup.filter) != nil && apply(old(v.rgb.topLevelGroup.filter), r)) || patApply(v, v.pattern, r))
+//@   ensures result == nil && len(v.pattern) > 0 && isInc(v.combiner) != parseBoolK(keyof(s)) ==> forall r string :: apply(v.rgb.topLevelGroup.filter, r) == ((old(v.rgb.topLevelGroup.filter) == nil || apply(old(v.rgb.topLevelGroup.filter), r)) && !patApply(v, v.pattern, r))
+//@   ensures result != nil ==> v.rgb.topLevelGroup.filter == old(v.rgb.topLevelGroup.filter)
+
+// --refgroup G is --include @G.
+//@ func (*filterGroupValue).Set
+//@   modifies v.rgb.topLevelGroup.filter
+//@   ensures (result == nil) == (has(v.rgb.groups, symbolString) && len(symbolString) > 0)
+//@   ensures result == nil ==> forall r string :: apply(v.rgb.topLevelGroup.filter, r) == ((old(v.rgb.topLevelGroup.filter) != nil && apply(old(v.rgb.topLevelGroup.filter), r)) || rgApply(v.rgb.groups[symbolString], r))
+//@   ensures result != nil ==> v.rgb.topLevelGroup.filter == old(v.rgb.topLevelGroup.filter)
+
+//@ property C06: (*filterValue).interpretFlexibly (*filterValue).Set (*filterGroupValue).Set
